@@ -901,7 +901,7 @@ func (vc *VC) atCall(fr *Frame, st *State, calleeFn *ssa.Function, args []string
 		if i < len(ptypes) {
 			t = ptypes[i]
 		}
-		nf.specEnv[fmt.Sprintf("arg%d", i)] = specVal{term: a, typ: t}
+		nf.specEnv[fmt.Sprintf("arg%d", i)] = specVal{term: a, typ: t, vspace: isStructLike(t)}
 	}
 	n := vc.ordinal("atcall/" + name)
 	for i, e := range exprs {
